@@ -563,6 +563,89 @@ Example C17_tcomp_bound_constants :
    tcomp_bound TF_kelvin_to_kelvin TF_celsius_to_kelvin TF_fahrenheit_to_kelvin 1 = u53 * (1 + / 1024) * (18 * 1 + 4490))%R.
 Proof. repeat split; reflexivity. Qed.
 
+(* ---- the same on a much wider window: 2^-800 <= |v| <= 2^800 ([Kw] = 800; exhaustive over the table like the
+   2^-40 .. 2^40 statements above, which are the ones the assignment asked for and stay valid for tables with far larger
+   coefficient ratios) *)
+
+Theorem C17_table_ranges_ok_wide : forall ua ub,
+  In ua all_units -> In ub all_units -> u_cat ua = u_cat ub -> is_lr ua = true -> is_lr ub = true ->
+  fin (cnum ua) /\ fin (cnum ub) /\ tab_ok ua ub (- Kw, Kw) = true.
+Proof. exact table_pair_wide. Qed.
+Check C17_table_ranges_ok_wide : forall ua ub,
+  In ua all_units -> In ub all_units -> u_cat ua = u_cat ub -> is_lr ua = true -> is_lr ub = true ->
+  fin (cnum ua) /\ fin (cnum ub) /\ tab_ok ua ub (- Kw, Kw) = true.
+Print Assumptions C17_table_ranges_ok_wide.
+
+Theorem C17_table_ranges_ok_triples_wide : forall ua ub uc,
+  In ua all_units -> In ub all_units -> In uc all_units -> u_cat ua = u_cat ub -> u_cat ub = u_cat uc ->
+  is_lr ua = true -> is_lr ub = true -> is_lr uc = true -> comp_ok ua ub uc (- Kw, Kw) = true.
+Proof. exact table_triple_wide. Qed.
+Check C17_table_ranges_ok_triples_wide : forall ua ub uc,
+  In ua all_units -> In ub all_units -> In uc all_units -> u_cat ua = u_cat ub -> u_cat ub = u_cat uc ->
+  is_lr ua = true -> is_lr ub = true -> is_lr uc = true -> comp_ok ua ub uc (- Kw, Kw) = true.
+Print Assumptions C17_table_ranges_ok_triples_wide.
+
+Theorem C17_there_and_back_float_linear_table_wide : forall ua ub la lb v,
+  In ua all_units -> In ub all_units -> u_cat ua = u_cat ub ->
+  u_conv ua = Linear la -> u_conv ub = Linear lb ->
+  fin v -> win (- Kw) Kw (Rv v) ->
+  let r2 := through_base fl v ua ub in
+  let r4 := through_base fl r2 ub ua in
+  exists e1 e2 e3 e4,
+    (Rabs e1 <= u53 /\ Rabs e2 <= u53 /\ Rabs e3 <= u53 /\ Rabs e4 <= u53 /\
+    Rv r4 = Rv v * ((1 + e1) * (1 + e2) * (1 + e3) * (1 + e4)) /\
+    Rabs (Rv r4 - Rv v) <= ((1 + u53) * (1 + u53) * (1 + u53) * (1 + u53) - 1) * Rabs (Rv v))%R.
+Proof. exact there_and_back_float_linear_table_wide. Qed.
+Check C17_there_and_back_float_linear_table_wide : forall ua ub la lb v,
+  In ua all_units -> In ub all_units -> u_cat ua = u_cat ub ->
+  u_conv ua = Linear la -> u_conv ub = Linear lb ->
+  fin v -> win (- Kw) Kw (Rv v) ->
+  let r2 := through_base fl v ua ub in
+  let r4 := through_base fl r2 ub ua in
+  exists e1 e2 e3 e4,
+    (Rabs e1 <= u53 /\ Rabs e2 <= u53 /\ Rabs e3 <= u53 /\ Rabs e4 <= u53 /\
+    Rv r4 = Rv v * ((1 + e1) * (1 + e2) * (1 + e3) * (1 + e4)) /\
+    Rabs (Rv r4 - Rv v) <= ((1 + u53) * (1 + u53) * (1 + u53) * (1 + u53) - 1) * Rabs (Rv v))%R.
+Print Assumptions C17_there_and_back_float_linear_table_wide.
+
+Theorem C17_builtin_there_and_back_float_wide : forall a b ua ub v,
+  resolve_unit a = UOk ua -> resolve_unit b = UOk ub -> u_cat ua = u_cat ub ->
+  fin v -> win (- Kw) Kw (Rv v) ->
+  exists r1 r2,
+    builtin_convert (ANum v) (AStr a) (AStr b) = UOk r1 /\
+    builtin_convert (ANum r1) (AStr b) (AStr a) = UOk r2 /\
+    (Rabs (Rv r2 - Rv v) <= tab_bound ua ub (Rabs (Rv v)))%R.
+Proof. exact builtin_there_and_back_all_kinds_wide. Qed.
+Check C17_builtin_there_and_back_float_wide : forall a b ua ub v,
+  resolve_unit a = UOk ua -> resolve_unit b = UOk ub -> u_cat ua = u_cat ub ->
+  fin v -> win (- Kw) Kw (Rv v) ->
+  exists r1 r2,
+    builtin_convert (ANum v) (AStr a) (AStr b) = UOk r1 /\
+    builtin_convert (ANum r1) (AStr b) (AStr a) = UOk r2 /\
+    (Rabs (Rv r2 - Rv v) <= tab_bound ua ub (Rabs (Rv v)))%R.
+Print Assumptions C17_builtin_there_and_back_float_wide.
+
+Theorem C17_builtin_composition_float_wide : forall a b c ua ub uc v,
+  resolve_unit a = UOk ua -> resolve_unit b = UOk ub -> resolve_unit c = UOk uc ->
+  u_cat ua = u_cat ub -> u_cat ub = u_cat uc ->
+  is_lr ua = true -> is_lr ub = true -> is_lr uc = true -> fin v -> win (- Kw) Kw (Rv v) ->
+  exists r1 r2 r3,
+    builtin_convert (ANum v) (AStr a) (AStr b) = UOk r1 /\
+    builtin_convert (ANum r1) (AStr b) (AStr c) = UOk r2 /\
+    builtin_convert (ANum v) (AStr a) (AStr c) = UOk r3 /\
+    (Rabs (Rv r2 - Rv r3) <= (qq ^ 6 - 1) * Rabs (Rv r3))%R.
+Proof. exact builtin_composition_float_wide. Qed.
+Check C17_builtin_composition_float_wide : forall a b c ua ub uc v,
+  resolve_unit a = UOk ua -> resolve_unit b = UOk ub -> resolve_unit c = UOk uc ->
+  u_cat ua = u_cat ub -> u_cat ub = u_cat uc ->
+  is_lr ua = true -> is_lr ub = true -> is_lr uc = true -> fin v -> win (- Kw) Kw (Rv v) ->
+  exists r1 r2 r3,
+    builtin_convert (ANum v) (AStr a) (AStr b) = UOk r1 /\
+    builtin_convert (ANum r1) (AStr b) (AStr c) = UOk r2 /\
+    builtin_convert (ANum v) (AStr a) (AStr c) = UOk r3 /\
+    (Rabs (Rv r2 - Rv r3) <= (qq ^ 6 - 1) * Rabs (Rv r3))%R.
+Print Assumptions C17_builtin_composition_float_wide.
+
 (* ---- Examples: the hypotheses are decidable and hold on real rows of the table *)
 (* 123456.789 km -> mi -> km (linear/linear), 30 mpg -> l/100km -> mpg (reciprocal/linear),
    30 mpg -> imp mpg -> mpg (reciprocal/reciprocal) *)
